@@ -189,8 +189,59 @@ pub fn c14_queries(s: &Shipped) -> (Vec<String>, Vec<usize>) {
             }
         }
     }
+    // two-word queries made of prefixes of two words that start alike but belong to facts of
+    // *different* asset files ("size sier": size of the universe / Sierra Leone): where such a query
+    // ties, the winner is decided by how the index lays the assets out (segments, their order)
+    let mut asset_of: Vec<usize> = Vec::new();
+    for (ai, (_, n)) in s.assets.iter().enumerate() {
+        asset_of.extend(std::iter::repeat(ai).take(*n));
+    }
+    let mut tok_assets: BTreeMap<String, BTreeSet<usize>> = BTreeMap::new();
+    for (ci, toks) in s.all_tokens().iter().enumerate() {
+        let a = asset_of.get(ci).copied().unwrap_or(0);
+        for t in toks {
+            tok_assets.entry(t.to_lowercase()).or_default().insert(a);
+        }
+    }
+    let smallest = s.assets.iter().enumerate().min_by_key(|(_, (_, n))| *n).map(|(i, _)| i).unwrap_or(0);
+    let mut prefix_pairs: Vec<(String, bool)> = Vec::new();
+    let toks: Vec<(&String, &BTreeSet<usize>)> = tok_assets.iter().collect();
+    // two passes: first the pairs that involve the smallest asset (all of them), then the others (capped)
+    for pass in 0..2 {
+      for (i, (a, aa)) in toks.iter().enumerate() {
+        for (b, ba) in toks.iter().skip(i + 1) {
+            if (aa.contains(&smallest) != ba.contains(&smallest)) != (pass == 0) {
+                continue;
+            }
+            let (ac, bc): (Vec<char>, Vec<char>) = (a.chars().collect(), b.chars().collect());
+            let cp = ac.iter().zip(bc.iter()).take_while(|(x, y)| x == y).count();
+            if cp < 2 || aa.iter().all(|x| ba.contains(x)) && ba.iter().all(|x| aa.contains(x)) {
+                continue;
+            }
+            let small = aa.contains(&smallest) != ba.contains(&smallest);
+            for la in (cp + 1)..=ac.len().min(7) {
+                for lb in (cp + 1)..=bc.len().min(7) {
+                    let (pa, pb): (String, String) = (ac[..la].iter().collect(), bc[..lb].iter().collect());
+                    for q in [format!("{pa} {pb}"), format!("{pb} {pa}")] {
+                        if let Some(f) = typed_forms(&q.split(' ').collect::<Vec<_>>()).into_iter().next() {
+                            if (pass == 0 || prefix_pairs.len() < 6000) && set.insert(f.clone()) {
+                                prefix_pairs.push((f, small));
+                            }
+                        }
+                    }
+                }
+            }
+        }
+      }
+    }
     let all: Vec<String> = set.into_iter().collect();
     let mut keep = Vec::new();
+    // those that involve the smallest asset are always asked (at most 700), also in the quick tier
+    for (f, _) in prefix_pairs.iter().filter(|(_, small)| *small).take(700) {
+        if let Ok(i) = all.binary_search(f) {
+            keep.push(i);
+        }
+    }
     // every twelfth cross-fact phrase is always asked, also in the quick tier
     for f in cross.iter().step_by(12) {
         if let Ok(i) = all.binary_search(f) {
